@@ -218,11 +218,18 @@ _SERIAL = [0]
 
 
 def _exec_user_module(src: str, modname: str):
+    # typing caches subscriptions by *equality* of the parameters and Union[a, b] == Union[b, a]: without
+    # this, `Tuple[Union[int, List[int]]]` would evaluate to an object created earlier in the process for
+    # `Tuple[Union[List[int], int]]` (alternatives in the other order) - the case would not be a function
+    # of its source text
+    import typing
+    for clear in list(getattr(typing, "_cleanups", [])):
+        clear()
     mod = pytypes.ModuleType(modname)
     mod.__dict__.update({"TEMPLATE": TEMPLATE, "_get_context_data": _get_context_data})
     sys.modules[modname] = mod          # typing.get_type_hints() looks the module of a TypedDict up here
     try:
-        exec(compile(src, f"<{modname}>", "exec"), mod.__dict__)
+        exec(compile(src, f"<{modname}>", "exec", dont_inherit=True), mod.__dict__)   # no `from __future__`
     except Exception as e:
         raise MachineryError(f"generated user module does not import: {e!r}\n{src}")
     return mod
@@ -351,7 +358,7 @@ def deviation_key(row: Dict[str, Any], obs: Dict[str, Any]) -> Optional[str]:
 
 def describe(decl, call, variant) -> Dict[str, Any]:
     return {"source": user_source(decl, "Typed", variant),
-            "call": {"args": repr(tuple(py_value(v) for v in call["args"])),
+            "python_call": {"args": repr(tuple(py_value(v) for v in call["args"])),
                      "kwargs": repr(_entries(call["kwargs"])), "slots": repr(_entries(call["slots"])),
                      "get_context_data_returns": repr(_entries(call["data"]))},
             "via": "render_to_response" if variant & 4 else "render"}
@@ -384,6 +391,7 @@ def _replay_job(job):
     stats = {"ok": 0, "type": 0, "other": 0, "zone": 0, "must_reject": 0, "must_accept": 0,
              "nontrivial": 0, "not_separable_skipped": skipped}
     problems: List[Dict[str, Any]] = []
+    per_key: Dict[Optional[str], int] = {}
     samples: List[Dict[str, Any]] = []
     n = 0
     for gi, g in enumerate(sorted(groups)):
@@ -409,7 +417,8 @@ def _replay_job(job):
             if conforms(row, obs):
                 continue
             key = deviation_key(row, obs)
-            if len(problems) < max_problems:
+            per_key[key] = per_key.get(key, 0) + 1
+            if per_key[key] <= (max_problems if key is None else 3):
                 problems.append({"fam": row["fam"], "decl": decl, "call": call, "variant": variant, "key": key,
                                  "admits": {"render": row["ok"], "TypeError_naming_one_of": row["may"],
                                             "must_reject": row["must"]},
@@ -673,7 +682,7 @@ def random_case(rnd: random.Random, depth: int) -> Tuple[Dict[str, Any], Dict[st
         fields, entries = [], []
         for name in chosen:
             if sec == "slots":
-                t = rnd.choice(SLOT_TYPES)
+                t = json.loads(canon(rnd.choice(SLOT_TYPES)))
                 if plain and t["k"] in ("slotcontent", "any"):
                     t = _t("slotfunc")
             else:
@@ -697,6 +706,28 @@ def random_case(rnd: random.Random, depth: int) -> Tuple[Dict[str, Any], Dict[st
     return decl, call
 
 
+def normalise_unions(decl: Dict[str, Any]) -> None:
+    """Within one module typing's subscription cache makes `List[Union[b, a]]` evaluate to an earlier
+    `List[Union[a, b]]`: give every union whose set of alternatives occurred before (in evaluation
+    order) the order of its first occurrence, so that the source text means what it says."""
+    first: Dict[str, List[Dict[str, Any]]] = {}
+
+    def walk(t):
+        for x in t["a"]:
+            walk(x)
+        if t["k"] == "union":
+            ident = canon(sorted(canon(x) for x in t["a"]))
+            if ident in first:
+                t["a"] = [json.loads(canon(x)) for x in first[ident]]
+            else:
+                first[ident] = t["a"]
+    for t in decl["args"]["m"]:
+        walk(t)
+    for sec in ("kwargs", "slots", "data"):
+        for f in decl[sec]["f"]:
+            walk(f["t"])
+
+
 def _record_job(job):
     from . import boot
     boot.setup()
@@ -705,6 +736,7 @@ def _record_job(job):
     out = []
     for i in range(count):
         decl, call = random_case(rnd, depth)
+        normalise_unions(decl)
         variant = rnd.randrange(64)
         obs = observe(decl, call, variant)
         out.append({"id": first_id + i, "decl": decl, "call": call, "variant": variant,
@@ -882,7 +914,7 @@ def replay(path: str) -> int:
          "obs": {"o": obs["o"], "named": obs["named"], "same": obs["same"], "comp": obs["comp"]}}
     v, _r = run_trace_tlc([t], "x02rp")
     print(user_source(decl, "Typed", variant))
-    for k, x in describe(decl, call, variant)["call"].items():
+    for k, x in describe(decl, call, variant)["python_call"].items():
         print(f"{k:26s} {x}")
     print(f"{'observed':26s} {json.dumps(obs)}")
     print(f"{'verdict':26s} {'ACCEPT' if v['accepted'] else {'REJECT': v['rejected'][1]}}")
